@@ -386,6 +386,18 @@ func init() {
 									{"(" + path + " as " + inner + ").count()", "[Integer:1]"}, {"(" + path + " as Resource).count()", "[Integer:1]"}, {tn + ".contained.where($this is " + inner + ").count() > 0", "[Boolean:true]"},
 									{path + ".children().where($this is " + inner + ").count()", "[Integer:0]"}, {tn + ".children().where($this is " + inner + ").count() > 0", fmt.Sprintf("[Boolean:%v]", true)},
 								} {
+									// the same resource with the entry's type URL under another host (only the part after the last '/' names the type)
+									if alt, okc := proto.Clone(res).(fhir.Resource); okc {
+										al := alt.ProtoReflect().Get(cf).List()
+										if aa, okA := al.Get(k).Message().Interface().(*anypb.Any); okA {
+											aa.TypeUrl = "type.example.org/" + aa.TypeUrl[strings.LastIndex(aa.TypeUrl, "/")+1:]
+											g2 := lib.Run(tc.src, []fhir.Resource{alt}, nil)
+											r.Eval()
+											if g2.String() != tc.want {
+												r.Fail("contained-resource|other-type-url-host|"+strings.SplitN(strings.TrimPrefix(tc.src, "("), " ", 3)[1]+"|"+g2.Class(), core.W{"src": tc.src, "got": core.Short(g2.String(), 200), "want": tc.want, "contained_type": inner, "type_url": aa.TypeUrl})
+											}
+										}
+									}
 									got := lib.Run(tc.src, []fhir.Resource{res}, nil)
 									r.Eval()
 									r.State("contained-resource|" + inner)
